@@ -106,3 +106,42 @@ def protocols(texts_, modules=('m', 'n'), max_files=3):
             for ts in itertools.product(texts_, repeat=k):
                 out.append([(names[i], t) for i, t in zip(sel, ts)])
     return out
+
+
+# ---------------------------------------------------------------------------------------------
+# long texts: hunk positions and lengths around every change in the number of decimal digits (9/10/11, 99/100/101) and lengths that
+# end in the digit 0 (10, 20, 100) — the hunk header `@@ -s,n +t,m @@` is parsed textually, small texts never produce such headers
+LONG_LENGTHS = (9, 10, 11, 12, 19, 20, 21, 30, 99, 100, 101, 110)
+LONG_POSITIONS = (0, 1, 8, 9, 10, 11, 18, 19, 20, 21, 29, 30, 98, 99, 100, 101, 109)
+
+
+def long_rows():
+    """rows (a, [b...]) for eval_row: a = L distinct lines; b = a with one or two edits at the boundary positions"""
+    rows = []
+    for L in LONG_LENGTHS:
+        lines = [f'l{i:03d}\n' for i in range(L)]
+        for eol in (True, False):
+            a_lines = list(lines)
+            if not eol:
+                a_lines[-1] = a_lines[-1][:-1]
+            a = ''.join(a_lines)
+            bs = []
+            for p in [q for q in LONG_POSITIONS if q <= L]:
+                new1 = ['NEW\n']
+                new10 = [f'N{i}\n' for i in range(10)]
+                variants = [a_lines[:p] + new1 + a_lines[p:],                       # insert one line before p
+                            a_lines[:p] + new10 + a_lines[p:]]                      # insert ten lines
+                if p < L:
+                    variants += [a_lines[:p] + a_lines[p + 1:],                     # delete line p
+                                 a_lines[:p] + new1 + a_lines[p + 1:],              # replace line p
+                                 a_lines[:p] + a_lines[p + 10:],                    # delete ten lines from p
+                                 a_lines[:p] + new10 + a_lines[p + 10:]]            # replace ten lines
+                if 4 <= p < L:
+                    variants += [['FIRST\n'] + a_lines[1:p] + new1 + a_lines[p + 1:],      # two hunks: line 0 and line p
+                                 a_lines[:2] + a_lines[3:p] + a_lines[p + 1:]]             # two deletions
+                for v in variants:
+                    if v and not eol and v[-1].endswith('\n') and v[-1] in new1 + new10:
+                        pass
+                    bs.append(''.join(v))
+            rows.append((a, bs))
+    return rows
